@@ -161,6 +161,12 @@ async def _run(ctx, text):
                     pos = r.randrange(len(b))
                     b[pos] = r.choice([0, 1, 255, (b[pos] + 1) % 256, (b[pos] - 1) % 256, r.randrange(256)])
                 variants.append(("corrupt", bytes(b)))
+            # length fields: a 16-bit big-endian field that claims exactly the rest of the buffer is made to claim 1..3 bytes
+            # more (and a few arbitrary positions are made to claim slightly more than what follows them)
+            exact = [pos for pos in range(len(bs) - 1) if int.from_bytes(bs[pos:pos + 2], "big") == len(bs) - pos - 2]
+            for pos in exact[-4:] + [r.randrange(len(bs) - 1) for _ in range(2 if len(bs) > 1 else 0)]:
+                for extra in (1, 2, 3):
+                    variants.append(("overclaim", bs[:pos] + (len(bs) - pos - 2 + extra).to_bytes(2, "big") + bs[pos + 2:]))
             variants.append(("extend", bs + r.randbytes(r.choice([1, 2, 9]))))
             variants.append(("random", r.randbytes(r.choice([0, 1, 5, 30]))))
             for how, data in variants:
